@@ -280,44 +280,82 @@ func runC07(ctx *core.Ctx) {
 			}
 			ctx.Check(okRoll, "A3", "lockedfile.Transform#tail-failure", tail.Pos(), "a failed tail write truncates the file back to len(old)")
 		}
-		// roll-back defer before first overwrite
+		// roll-back defer before first overwrite. The deferred function may capture the
+		// caller's variables or receive them as arguments; either way a value inside it
+		// is traced to the caller's value it stands for.
 		var rb *ssa.Defer
+		var cell ssa.Value
+		callerOf := func(d *ssa.Defer, fn *ssa.Function, v ssa.Value) ssa.Value {
+			switch x := v.(type) {
+			case *ssa.FreeVar:
+				if mc, ok := d.Call.Value.(*ssa.MakeClosure); ok {
+					for k, fv := range fn.FreeVars {
+						if fv == x {
+							return mc.Bindings[k]
+						}
+					}
+				}
+			case *ssa.Parameter:
+				for k, par := range fn.Params {
+					if par == x && k < len(d.Call.Args) {
+						return d.Call.Args[k]
+					}
+				}
+			}
+			return nil
+		}
 		g.Instrs(func(i ssa.Instruction) {
 			d, ok := i.(*ssa.Defer)
 			if !ok {
 				return
 			}
-			mc, ok := d.Call.Value.(*ssa.MakeClosure)
-			if !ok {
+			var fn *ssa.Function
+			switch x := d.Call.Value.(type) {
+			case *ssa.MakeClosure:
+				fn, _ = x.Fn.(*ssa.Function)
+			case *ssa.Function:
+				fn = x
+			}
+			if fn == nil || fn.Blocks == nil {
 				return
 			}
-			fn := mc.Fn.(*ssa.Function)
 			cg := graph(p, fn)
 			for _, w := range cg.Calls("(*os.File).WriteAt") {
 				z, ok := ssax.ConstInt(w.Call.Args[2])
 				if !ok || z != 0 {
 					continue
 				}
-				// guarded by err != nil (a free variable load) and writes old
-				guard := false
+				// guarded by "<the caller's error variable> != nil" and writes old
+				var guardCell ssa.Value
 				for _, f := range cg.FactsAtInstr(w) {
 					x, eq, ok := ssax.NilCheck(f.Cond)
 					if ok && (eq == f.Val) == false {
-						if u, ok := x.(*ssa.UnOp); ok {
-							if fv, ok := u.X.(*ssa.FreeVar); ok && fv.Name() == "err" {
-								guard = true
+						if u, ok := x.(*ssa.UnOp); ok && u.Op == token.MUL {
+							if c := callerOf(d, fn, u.X); c != nil {
+								guardCell = c
 							}
 						}
 					}
 				}
 				writesOld := false
-				if u, ok := w.Call.Args[1].(*ssa.UnOp); ok {
-					if fv, ok := u.X.(*ssa.FreeVar); ok && fv.Name() == "old" {
+				switch x := w.Call.Args[1].(type) {
+				case *ssa.UnOp:
+					if c := callerOf(d, fn, x.X); c != nil {
+						// a captured variable: its cell must hold old
+						for _, r := range ssax.Referrers(c) {
+							if st, ok := r.(*ssa.Store); ok && st.Addr == c && isOld(st.Val) {
+								writesOld = true
+							}
+						}
+					}
+				case *ssa.Parameter:
+					if c := callerOf(d, fn, x); c != nil && isOld(c) {
 						writesOld = true
 					}
 				}
-				if guard && writesOld {
+				if guardCell != nil && writesOld {
 					rb = d
+					cell = guardCell
 				}
 			}
 		})
@@ -325,16 +363,8 @@ func runC07(ctx *core.Ctx) {
 			ctx.Bad("A3", "lockedfile.Transform#rollback", tf.Pos(), "no deferred roll-back that rewrites old at offset 0 when the result error is non-nil")
 		} else {
 			// the error the roll-back looks at must be the function's result: every return stores its
-			// value into the very cell the closure reads (named result); a separate local never sees
-			// the errors of the failing steps
-			mc := rb.Call.Value.(*ssa.MakeClosure)
-			fn := mc.Fn.(*ssa.Function)
-			var cell ssa.Value
-			for k, fv := range fn.FreeVars {
-				if fv.Name() == "err" {
-					cell = mc.Bindings[k]
-				}
-			}
+			// value into the very cell the deferred function reads (named result); a separate local never
+			// sees the errors of the failing steps
 			okCell := cell != nil
 			for _, r := range g.Returns() {
 				u, ok := r.Results[0].(*ssa.UnOp)
@@ -408,32 +438,42 @@ func runC07(ctx *core.Ctx) {
 		ok := cp != nil && cl != nil
 		if ok {
 			cerr := ssax.Extracted(cp, 1)
+			sawCopy := false
 			for _, r := range g.Returns() {
 				if !g.Dominates(cl, r) {
 					continue
 				}
-				// returned value is a phi over {copy err, close err}: close err only when copy err nil
+				// the returned value is the copy error, or the close error on paths where the copy error is nil
+				// (one return of a merged value, or separate returns)
 				v := ssax.ReturnValues(r)[0]
 				_, leaves := phiWeb(v)
 				if len(leaves) == 0 {
 					leaves = []leaf{{Val: v}}
 				}
-				sawCopy := false
 				for _, l := range leaves {
+					facts := g.FactsAtInstr(r)
+					if l.Pred != nil {
+						facts = factsOnEdge(g, l.Pred, l.Phi.Block())
+					}
 					switch {
 					case l.Val == cerr:
 						sawCopy = true
 					case l.Val == ssa.Value(cl):
-						if l.Pred == nil || !ssax.KnownNil(factsOnEdge(g, l.Pred, l.Phi.Block()), cerr, true) {
+						if !ssax.KnownNil(facts, cerr, true) {
+							ok = false
+						}
+					case ssax.IsNil(l.Val):
+						// a literal nil is fine only when both errors are known nil
+						if !ssax.KnownNil(facts, cerr, true) || !ssax.KnownNil(facts, cl, true) {
 							ok = false
 						}
 					default:
 						ok = false
 					}
 				}
-				if !sawCopy {
-					ok = false
-				}
+			}
+			if !sawCopy {
+				ok = false
 			}
 		}
 		ctx.Check(ok, "A4", "lockedfile.Write#first-error", w.Pos(), "Write returns the copy error, or the close error when the copy succeeded")
